@@ -107,7 +107,61 @@ def cr_in_string_value():
     return None if a == b else f"open(path) gives {a!r}, loads(the same UTF-8 content) gives {b!r}"
 
 
+def number_literal_overflows_to_inf():
+    import mappyfile
+
+    d = _loads("MAP ANGLE 1e999 END")
+    out = mappyfile.dumps(d)
+    back = _loads(out).get("angle")
+    if isinstance(back, float) and back == d.get("angle"):
+        return None
+    return f"MAP ANGLE 1e999 END loads angle={d.get('angle')!r}, is written {out.split()[1:3]} and loads back as {back!r}"
+
+
+def left_nested_expression_quadratic():
+    import time
+    from mappyfile.parser import Parser
+    from mappyfile.transformer import MapfileToDict
+
+    p, m = Parser(), MapfileToDict()
+
+    def cost(n):
+        s = "( [id] = 0 )"
+        for i in range(1, n):
+            s = f"( {s} OR ( [id] = {i} ) )"
+        text = f"LAYER FILTER {s} END"
+        best = None
+        for _ in range(2):
+            t0 = time.process_time()
+            m.transform(p.parse(text))
+            dt = time.process_time() - t0
+            best = dt if best is None else min(best, dt)
+        return best, len(text)
+
+    a, la = cost(250)
+    b, lb = cost(1000)
+    ratio = b / max(a, 1e-9)
+    if ratio < 2.0 * lb / la:
+        return None
+    return f"4.2 x the characters cost {ratio:.1f} x the CPU time ({la} chars {a * 1000:.0f} ms, {lb} chars {b * 1000:.0f} ms)"
+
+
+def symbolset_root_bookkeeping():
+    import mappyfile
+
+    d = mappyfile.loads('# above\nSYMBOLSET\n  SYMBOL\n    NAME "a"\n  END\nEND', include_position=True, include_comments=True)
+    pos = d.get("__position__", {})
+    out = mappyfile.dumps(d)
+    above = out.split("\n")[0].strip() == "# above"
+    if pos.get("line") == 2 and pos.get("column") == 1 and above:
+        return None
+    return f"SYMBOLSET root records line={pos.get('line')!r} column={pos.get('column')!r}; the comment above it is written {'above it' if above else 'above its first SYMBOL'}"
+
+
 REPRO = {
+    "symbolset-root-bookkeeping": symbolset_root_bookkeeping,
+    "left-nested-expression-quadratic": left_nested_expression_quadratic,
+    "number-literal-overflows-to-inf": number_literal_overflows_to_inf,
     "cr-in-string-value": cr_in_string_value,
     "label-backgroundshadowsize-schema": label_backgroundshadowsize_schema,
     "symbol-block-alternative-unwritable": symbol_block_alternative_unwritable,
